@@ -18,8 +18,8 @@ ASSUME = [
 
 def summary(e):
     c = e["cfg"]
-    return "pair #%d mode=%s resid=%s bf=%d %s/%s %s nk=%d old=%s new=%s" % (
-        e["id"], e["mode"], e["resid"], c["bf"], c["kt"], c["vt"], c["nf"], c["nk"],
+    return "pair #%d mode=%s resid=%s stores=%s%s bf=%d %s/%s %s nk=%d old=%s new=%s" % (
+        e["id"], e["mode"], e["resid"], e.get("stores", "one"), " +cache" if e.get("dcache") else "", c["bf"], c["kt"], c["vt"], c["nf"], c["nk"],
         e["mo"] if e["hasold"] else "nil", e["mn"])
 
 
